@@ -4,10 +4,9 @@ CONSTANTS
   MaxCrash = 3
   MaxTimeouts = 1
   EnvWaits = FALSE
-SPECIFICATION FairSpec
+SPECIFICATION Spec
 INVARIANT TypeOK
 INVARIANT Inv_ReplayOrder
 INVARIANT Inv_Journal
 INVARIANT Inv_NoFallback
 INVARIANT Inv_Entries
-PROPERTY Live_Ends
